@@ -5,6 +5,7 @@ package main
 
 import (
 	"bytes"
+	"os"
 	"crypto/sha256"
 	"encoding/base64"
 	"encoding/hex"
@@ -371,7 +372,7 @@ func (x *cliExec) violate(class, sig, detail string, upto int) {
 // run executes the whole scenario.
 func (x *cliExec) run() {
 	sc := x.sc
-	x.w = newCliWorld(sc.Env, false)
+	x.w = newCliWorld(sc.Env, os.Getenv("VERIF_DEBUG") != "")
 	names := make([]string, 0, len(sc.Files))
 	for n := range sc.Files {
 		names = append(names, n)
@@ -607,7 +608,15 @@ func (x *cliExec) judge(s *stepInfo) {
 		}
 		x.res.Extended[k]++
 		for _, f := range s.fired {
-			if !strings.HasPrefix(f, "kill") && f != "sink_limit" {
+			if strings.HasPrefix(f, "kill") || f == "sink_limit" || f == "powerloss" {
+				continue
+			}
+			// An error on a write, create or close of a cache/temp file is
+			// something gts is told about and can react to (drop the entry):
+			// later steps stay under the strict oracle. An error on unlinking,
+			// reading, seeking or listing leaves it without a remedy; what
+			// follows those is tallied, not judged.
+			if !(strings.HasSuffix(f, "@write") || strings.HasSuffix(f, "@create") || strings.HasSuffix(f, "@close")) {
 				x.tainted = true
 			}
 		}
@@ -752,6 +761,11 @@ func execCli(prop string, sc *cliScenario, res *core.Result, wrap func(*cliScena
 func cliReplay(prop string, sc *cliScenario, wrap func(*cliScenario) json.RawMessage) ([]core.Violation, string, error) {
 	res := &core.Result{}
 	x := execCli(prop, sc, res, wrap)
+	if os.Getenv("VERIF_DEBUG") != "" {
+		for _, l := range x.w.Log.Lines {
+			fmt.Println("  sim:", l)
+		}
+	}
 	return x.vs, x.w.Log.Digest(), nil
 }
 
